@@ -93,14 +93,22 @@ def _from_soap(in_envelope_xml, xmlids=None, **kwargs):
 
 def _parse_xml_string(xml_string, parser, charset=None):
     xml_string = iter(xml_string)
-    chunk = next(xml_string)
+    try:
+        chunk = next(xml_string)
+    except StopIteration:
+        # no chunks at all is an empty document
+        chunk = b''
+
     if isinstance(chunk, six.binary_type):
         string = b''.join(chain( (chunk,), xml_string ))
     else:
         string = ''.join(chain( (chunk,), xml_string ))
 
     if charset:
-        string = string.decode(charset)
+        try:
+            string = string.decode(charset)
+        except (UnicodeDecodeError, LookupError) as e:
+            raise Fault('Client.XMLSyntaxError', str(e))
 
     try:
         try:
@@ -210,6 +218,9 @@ class Soap11(XmlDocument):
                                                             ns=self.ns_soap_env)
 
         ctx.in_document = envelope_xml
+
+        if body_document is None:
+            raise Fault('Client.SoapError', 'Soap body is empty!')
 
         if body_document.tag == '{%s}Fault' % self.ns_soap_env:
             ctx.in_body_doc = body_document
